@@ -286,7 +286,7 @@ def prepare_unit_root(case):
 
 
 SUBCHECKS = [
-    HypSub("smoother", lambda: kc.kalman_case(allow_tv_stds=False), _check, _classify, budget={"quick": 900, "thorough": 12000}),
-    HypSub("smoother_shocks_from_data", lambda: _ant_case(), _check, _classify, budget={"quick": 400, "thorough": 6000}),
-    HypSub("smoother_unit_root", _unit_root_case, _check_unit_root, _classify, budget={"quick": 500, "thorough": 8000}),
+    HypSub("smoother", lambda: kc.kalman_case(allow_tv_stds=False), _check, _classify, budget={"quick": 900, "thorough": 24000}),
+    HypSub("smoother_shocks_from_data", lambda: _ant_case(), _check, _classify, budget={"quick": 400, "thorough": 12000}),
+    HypSub("smoother_unit_root", _unit_root_case, _check_unit_root, _classify, budget={"quick": 500, "thorough": 16000}),
 ]
